@@ -88,12 +88,82 @@ fn one(c: &Value) -> Value {
     ev
 }
 
+/// The identifiers DERIVED from the name: the item of an anonymous inner type (<Parent><Member>), the default function of a
+/// component (<parent>_<member>_default), the payload types of From impls.  The name is used as parent (role type) or as member
+/// (roles component, alternative) of an inline SEQUENCE with a DEFAULT, compiled with generate_from_impls on.
+fn derived(c: &Value) -> Option<Value> {
+    if !c["kw"].as_str().unwrap_or("").is_empty() {
+        return None;
+    }
+    let name = asn_name(c);
+    let body = match c["role"].as_str().unwrap() {
+        "type" => format!("{name} ::= CHOICE {{ inner SEQUENCE {{ f BOOLEAN DEFAULT TRUE }}, plain BOOLEAN }}"),
+        "component" => format!("Tx ::= SEQUENCE {{ {name} SEQUENCE {{ f BOOLEAN DEFAULT TRUE }} OPTIONAL, plain INTEGER DEFAULT 5 }}"),
+        "alternative" => format!("Tx ::= CHOICE {{ {name} SEQUENCE {{ f BOOLEAN DEFAULT TRUE }}, plain BOOLEAN }}"),
+        _ => return None,
+    };
+    let text = format!("Idm DEFINITIONS AUTOMATIC TAGS ::= BEGIN\n{body}\nEND\n");
+    let cfg = rasn_compiler::prelude::RasnConfig { generate_from_impls: true, ..Default::default() };
+    let (o, _) = run::compile_rasn(&[text.clone()], cfg);
+    let mut ev = c.clone();
+    ev["ev"] = json!("derived");
+    ev["variant"] = json!("derived");
+    ev["asn"] = json!(name);
+    ev["asn_chars"] = json!(chars(&name));
+    ev["src"] = json!(text);
+    ev["status"] = json!(if o.status == "ok" && !o.warnings.is_empty() { "warn".to_string() } else { o.status.clone() });
+    ev["detail"] = json!(format!("{}{}{}", o.error, o.panic_msg, o.warnings.join(" | ")));
+    ev["parsed_ok"] = json!(false);
+    ev["idents"] = json!([]);
+    ev["inner"] = json!([]);
+    if o.status != "ok" || !o.warnings.is_empty() {
+        return Some(ev);
+    }
+    let krate = rsproj::project(&o.generated);
+    ev["parsed_ok"] = json!(krate.parsed_ok);
+    if !krate.parsed_ok {
+        ev["detail"] = json!(krate.parse_error);
+        return Some(ev);
+    }
+    let mut idents: Vec<String> = vec![];
+    let mut inner: Vec<String> = vec![];
+    let words = |t: &str| -> Vec<String> {
+        t.split(|ch: char| !(ch.is_alphanumeric() || ch == '_')).filter(|w| !w.is_empty() && !w.chars().next().unwrap().is_ascii_digit()).map(|w| w.to_string()).collect()
+    };
+    for m in &krate.modules {
+        idents.push(m.name.clone());
+        for it in &m.items {
+            match it.kind.as_str() {
+                "impl" => {
+                    // impl From<Payload> for Choice
+                    idents.extend(words(&it.ty));
+                    idents.extend(words(&it.expr).into_iter().filter(|w| w != "From"));
+                }
+                "use" | "macro" | "other" => (),
+                _ => {
+                    idents.push(it.name.clone());
+                    if it.kind != "fn" && it.name != "Tx" && !it.variants.iter().any(|v| v.name == "plain") && !it.fields.iter().any(|f| f.name == "plain") {
+                        inner.push(it.name.clone());
+                    }
+                    idents.extend(it.fields.iter().map(|f| f.name.clone()));
+                    idents.extend(it.variants.iter().map(|v| v.name.clone()));
+                }
+            }
+        }
+    }
+    idents.sort();
+    idents.dedup();
+    ev["idents"] = json!(idents.iter().map(|i| json!({"s": i, "c": chars(i)})).collect::<Vec<_>>());
+    ev["inner"] = json!(inner.iter().map(|i| chars(i)).collect::<Vec<_>>());
+    Some(ev)
+}
+
 /// vharness c16 --cases <ndjson> --trace <ndjson>
 pub fn drive(args: &[String]) -> i32 {
     let cases = util::read_ndjson(util::arg(args, "--cases").expect("--cases"));
     let events = util::par_chunks(&cases, 64, util::threads(), |_, chunk| {
         run::install_panic_hook();
-        chunk.iter().map(one).collect()
+        chunk.iter().flat_map(|c| std::iter::once(one(c)).chain(derived(c))).collect()
     });
     util::write_ndjson(util::arg(args, "--trace").expect("--trace"), &events);
     eprintln!("c16: {} cases, {} events", cases.len(), events.len());
